@@ -168,7 +168,7 @@ class Tracer:
                 for m in c.methods.values():
                     for n in ast.walk(m.node):
                         if isinstance(n, ast.Assign) and isinstance(n.value, ast.Call) and \
-                                self._callee_last(n.value) in STREAM_CTORS:
+                                self.is_stream_ctor(n.value):
                             for t in n.targets:
                                 if isinstance(t, ast.Attribute) and isinstance(t.value, ast.Name) and t.value.id == "self":
                                     self.shared_streams.add(t.attr)
@@ -641,7 +641,7 @@ class Tracer:
     def _assign(self, target, value, st: St, fr: Frame):
         if isinstance(target, ast.Name):
             val: Any
-            if isinstance(value, ast.Call) and self._callee_last(value) in STREAM_CTORS:
+            if isinstance(value, ast.Call) and self.is_stream_ctor(value, st):
                 val = ("stream", "inner")
                 if self.record in (None, "inner"):
                     st.tok = st.tok + (("O",),)      # a local window is opened on this path
@@ -1218,12 +1218,27 @@ class Tracer:
                         return g
         return None
 
+    def is_stream_ctor(self, call: ast.Call, st: Optional[St] = None) -> bool:
+        """BufferWriter(..) / se.BufferReader(..), or self.X(..) / cls.X(..) where the class attribute X is bound to
+        one of the stream classes (a hook point whose default is today's class)."""
+        last = self._callee_last(call)
+        if last in STREAM_CTORS:
+            return True
+        f = call.func
+        if self.cls is not None and isinstance(f, ast.Attribute) and isinstance(f.value, ast.Name) and \
+                (f.value.id in ("self", "cls") if st is None else st.env.get(f.value.id) == "@"):
+            v = self.repo.class_attr(self.cls, f.attr)
+            if isinstance(v, (ast.Name, ast.Attribute)):
+                from .core import ap as _ap
+                return (_ap(v) or "").split(".")[-1] in STREAM_CTORS
+        return False
+
     def _returns_fresh_stream(self, node: ast.Call, st: St, fr: Frame) -> bool:
         m = self._resolve(node, st, fr)
         if m is None or isinstance(m, tuple):
             return False
         rets = [r for r in ast.walk(m.node) if isinstance(r, ast.Return)]
-        return bool(rets) and all(isinstance(r.value, ast.Call) and self._callee_last(r.value) in STREAM_CTORS for r in rets)
+        return bool(rets) and all(isinstance(r.value, ast.Call) and self.is_stream_ctor(r.value) for r in rets)
 
     def _callable_class(self, node: ast.Call, st: St, fr: Frame) -> Optional[ClassInfo]:
         f = node.func
@@ -1397,6 +1412,23 @@ def canon(word: Tuple) -> Tuple:
             alts = sorted({canon(w) for w in t[3]} - {()}, key=repr)
             if alts:
                 out.append(("*", t[1], tuple(alts)))
+    changed = True
+    while changed:
+        changed = False
+        for i, t in enumerate(out):
+            if isinstance(t, tuple) and t and t[0] == "*":
+                for w in t[2]:
+                    n = len(w)
+                    if n and tuple(out[i + 1:i + 1 + n]) == w:
+                        del out[i + 1:i + 1 + n]
+                        changed = True
+                        break
+                    if n and i >= n and tuple(out[i - n:i]) == w:
+                        del out[i - n:i]
+                        changed = True
+                        break
+            if changed:
+                break
     return tuple(out)
 
 
